@@ -2,3 +2,4 @@ import FlexiVerif.Model.Text
 import FlexiVerif.Model.Spec
 import FlexiVerif.Model.Flw
 import FlexiVerif.Model.Names
+import FlexiVerif.Model.FlwAbs
